@@ -148,7 +148,20 @@ func TestHistories(t *testing.T) {
 			powers[i] = rapid.Int64Range(1, 20).Draw(t, "power")
 		}
 		split := rapid.IntRange(0, 3).Draw(t, "split") == 0
-		hs := newHist(t, test, initial, keys, powers, split)
+		// the stores start from genesis or from a state-sync bootstrap at a snapshot height of a grown source chain
+		start := rapid.SampledFrom([]string{"genesis", "genesis", "genesis", "state-synced"}).Draw(t, "start")
+		var hs *hist
+		if start == "genesis" {
+			hs = newHist(t, test, initial, keys, powers, split)
+		} else {
+			hs = newSyncedHist(t, test, initial, keys, powers, split, func(src *lib.Chain) {
+				for k, n := 0, rapid.IntRange(1, 5).Draw(t, "snapshotAfter"); k < n; k++ {
+					if err := src.Advance(genPlan(t, src, true, fmt.Sprintf("src.b%d", k))); err != nil {
+						t.Fatalf("harness: source chain: %v", err)
+					}
+				}
+			})
+		}
 		defer hs.close()
 		maxOps := 9
 		if lib.Thorough() {
@@ -205,15 +218,15 @@ func TestHistories(t *testing.T) {
 				hs.liveAudit("after rollback and restart")
 			}
 		}
-		span := hs.c.Tip() - initial + 1
-		caseFP := lib.FP(initial, keys, powers, split, kinds, hs.c.IDs[hs.c.Tip()].Hash)
+		span := hs.c.Tip() - hs.initial + 1
+		caseFP := lib.FP(initial, start, hs.initial, keys, powers, split, kinds, hs.c.IDs[hs.c.Tip()].Hash)
 		es := hs.enumerate(0, span <= 8, caseFP)
-		cls := []string{"initial:" + ikind, fmt.Sprintf("split-batches:%v", split), fmt.Sprintf("crashes-injected:%d", min(hs.crashes, 3))}
+		cls := []string{"initial:" + ikind, "start:" + start, fmt.Sprintf("split-batches:%v", split), fmt.Sprintf("crashes-injected:%d", min(hs.crashes, 3))}
 		for _, o := range hs.ops {
 			cls = append(cls, "op:"+o.Kind)
 		}
 		multi := 0
-		for h := initial; h <= hs.c.Tip(); h++ {
+		for h := hs.initial; h <= hs.c.Tip(); h++ {
 			if hs.c.Parts[h].Total() > 1 {
 				multi++
 			}
